@@ -213,6 +213,10 @@ def _ir_dtype(name):
 OPSET = 18
 
 
+class ArgumentsMutated(Exception):
+    pass
+
+
 def trace_model(qname, pos, kw, fn=None):
     """Trace the registered function the way torch.onnx's exporter does
     (_core._handle_call_function_node_with_lowering): SymbolicTensor inputs with static shape and
@@ -249,9 +253,19 @@ def trace_model(qname, pos, kw, fn=None):
         okw[key] = conv(x, key)
         if key == "dtype" and okw[key] is None:
             okw[key] = -1
+    # the call's own Python-valued arguments (ints, lists of ints, ...) as they are before the call: an ATen call does not
+    # change its argument lists, and an exporter may pass the same list object again (session 6, seeded C08-m10)
+    def plain(v):
+        return repr(v) if isinstance(v, (int, float, bool, str, type(None))) or (isinstance(v, (list, tuple)) and all(
+            isinstance(e, (int, float, bool)) for e in v)) else None
+
+    before = [plain(v) for v in oargs] + [plain(okw[k]) for k in sorted(okw)]
     with onnxscript.evaluator.default_as(tracer), warnings.catch_warnings():
         warnings.simplefilter("ignore")
         outs = fn(*oargs, **okw)
+    after = [plain(v) for v in oargs] + [plain(okw[k]) for k in sorted(okw)]
+    if before != after:
+        raise ArgumentsMutated(f"tracing {qname} changed its own arguments: {before} -> {after}")
     st = "one"
     if isinstance(outs, (list, tuple)):
         st = "many"
